@@ -1,6 +1,6 @@
 (* Proofs/BibSuffix.v -- C10: character-level suffix confinement *)
 From Pybtex Require Import Base.Prelude Base.PyChar Base.PyStr Model.BibtexStr Model.Names
-  Model.Scanner Model.BibParser Proofs.Scanner Proofs.BibStable Proofs.BibValues Proofs.BibEntry Proofs.BibFile.
+  Model.Scanner Model.BibParser Proofs.Scanner Proofs.CharFacts Proofs.BibStable Proofs.BibValues Proofs.BibEntry Proofs.BibFile.
 From Pybtex Require Proofs.BibParser.
 Local Open Scope N_scope.
 
@@ -86,4 +86,775 @@ Proof.
   unfold untouchedb, untouched. intros H. apply andb_prop in H as [H1 H2]. split.
   - destruct (sc_rest (p_sc s)); [discriminate|discriminate].
   - intros e He. rewrite forallb_forall in H2. specialize (H2 e He). apply negb_true_iff, N.eqb_neq in H2. exact H2.
+Qed.
+
+(* ==== syntactic criteria ==== *)
+(* (1) a well-formed file followed by non-empty junk is never read past its end *)
+Lemma file_loop_rest : forall items fuel d st tail d' st',
+  wf_file (p_macros st) items -> no_at tail -> sc_rest (p_sc st) = file_text2 items tail ->
+  bib_loop process fuel Capture d st = Ret d' st' -> sc_rest (p_sc st') = tail.
+Proof.
+  induction items as [|[junk i] r IH]; intros fuel d st tail d' st' Hwf Htail Hr H; (destruct fuel as [|fu]; [discriminate|]); cbn [bib_loop] in H.
+  - cbn [file_text2] in Hr. unfold skip_to in H. rewrite Hr, (find_first_all_false _ tail Htail) in H. injection H as <- <-. exact Hr.
+  - destruct Hwf as (Hj & Hi & Hwr).
+    cbn [file_text2] in Hr. unfold skip_to in H. rewrite Hr, (find_first_app _ junk c_at _ Hj eq_refl) in H.
+    match type of H with context [parse_command Capture ?s1] =>
+      destruct (item_reads Capture s1 i (file_text2 r tail) Hi eq_refl) as (st2 & E & Hr2 & Her & Hma)
+    end.
+    rewrite E in H. cbn [p_macros set_cstart set_sc] in Hma.
+    destruct (item_cmd _ i) as [c|].
+    + destruct (process Capture c d st2) as [d2 s3|e3 s3|x3] eqn:Ep; cbn [obind] in H; try discriminate.
+      pose proof (proj2 (SF_process c d) st2) as _.
+      assert (Hk : p_sc s3 = p_sc st2 /\ p_macros s3 = p_macros st2).
+      { clear -Ep. revert Ep. destruct c as [n f v|n v|typ key fields]; cbn [process].
+        - intros H; injection H as <- <-; auto.
+        - unfold process_preamble. intros H; injection H as <- <-; auto.
+        - unfold process_entry. destruct key as [k|];
+            (destruct (process_fields Capture fields [] [] [] st2) as [rr s1|? ?|?] eqn:Ef; cbn [obind]; try discriminate;
+             assert (Hf : p_sc s1 = p_sc st2 /\ p_macros s1 = p_macros st2) by
+               (clear -Ef; revert Ef; generalize (@nil str) at 1; generalize (@nil (str * str)); generalize (@nil (str * list person));
+                revert st2; induction fields as [|[fn pa] rest IHf]; intros st2 ps fs seen Ef; cbn [process_fields] in Ef;
+                [injection Ef as _ <-; auto|];
+                destruct (existsb (str_eqb (lower fn)) seen);
+                [cbn [handle_error obind] in Ef; destruct (IHf _ _ _ _ Ef); auto|];
+                destruct (is_person_field (lower fn)); [|exact (IHf _ _ _ _ Ef)];
+                destruct (split_name_list _) as [names|? ?| |]; try discriminate;
+                destruct (persons_of Capture names [] st2) as [pl sp|? ?|?] eqn:Epp; cbn [obind] in Ef; try discriminate;
+                assert (Hp : p_sc sp = p_sc st2 /\ p_macros sp = p_macros st2) by
+                  (clear -Epp; revert Epp; generalize (@nil person); revert st2; induction names as [|nm nr IHn]; intros st2 acc Epp; cbn [persons_of] in Epp;
+                   [injection Epp as _ <-; auto|];
+                   destruct (person_of_string nm) as [[pp rep]|? ?| |]; try discriminate;
+                   destruct rep; cbn [handle_error obind] in Epp; [destruct (IHn _ _ Epp); auto|exact (IHn _ _ Epp)]);
+                destruct Hp as [Hp1 Hp2]; destruct (IHf _ _ _ _ Ef) as [Hq1 Hq2]; split; congruence);
+             unfold add_entry; destruct (existsb _ _); cbn [handle_error obind]; intros H; injection H as <- <-; destruct Hf; auto). }
+      destruct Hk as [Hk1 Hk2].
+      apply (IH fu d2 s3 tail d' st'); auto; [rewrite Hk2, Hma; exact Hwr|rewrite Hk1; exact Hr2].
+    + apply (IH fu d st2 tail d' st'); auto. rewrite Hma. exact Hwr.
+Qed.
+
+Lemma data_errs_no_eof e : forall x, In x (map data_err e) -> In (e_cls x) e.
+Proof. intros x Hx. apply in_map_iff in Hx as (c & <- & Hc). exact Hc. Qed.
+
+Lemma denote_errs_data : forall items macros v v' e, denote_items2 macros items v = Some (v', e) -> forall c, In c e -> c <> E_EOF.
+Proof.
+  induction items as [|[j i] r IH]; intros macros v v' e H c Hc; cbn [denote_items2] in H.
+  - injection H as <- <-. contradiction.
+  - destruct (match item_cmd macros i with Some c0 => denote_cmd2 c0 v | None => Some (v, []) end) as [[v1 e1]|] eqn:E1; [|discriminate].
+    destruct (denote_items2 (item_macros macros i) r v1) as [[v2 e2]|] eqn:E2; [|discriminate]. injection H as <- <-.
+    apply in_app_or in Hc as [Hc|Hc]; [|exact (IH _ _ _ _ E2 c Hc)].
+    destruct (item_cmd macros i) as [c0|]; [|injection E1 as <- <-; contradiction].
+    destruct c0 as [n f vv|n vv|typ [key|] fields]; cbn [denote_cmd2] in E1; try discriminate; try (injection E1 as <- <-; contradiction).
+    destruct (denote_fields fields [] [] []) as [[[fs ps] ef]|] eqn:Ef; [|discriminate].
+    assert (Hf : forall c, In c ef -> c <> E_EOF).
+    { clear -Ef. revert Ef. generalize (@nil str). generalize (@nil (str * str)) at 1. generalize (@nil (str * list person)) at 1. revert fs ps ef.
+      induction fields as [|[fn pa] rest IHf]; intros fs ps ef ps0 fs0 seen Ef c Hc; cbn [denote_fields] in Ef.
+      - injection Ef as <- <- <-. contradiction.
+      - destruct (existsb (str_eqb (lower fn)) seen).
+        + destruct (denote_fields rest seen fs0 ps0) as [[[f2 p2] e2]|] eqn:E; [|discriminate]. injection Ef as <- <- <-.
+          destruct Hc as [<-|Hc]; [discriminate|exact (IHf _ _ _ _ _ _ E c Hc)].
+        + destruct (is_person_field (lower fn)); [|exact (IHf _ _ _ _ _ _ Ef c Hc)].
+          destruct (split_name_list _) as [names|? ?| |]; try discriminate.
+          destruct (denote_persons names []) as [[pl e1]|] eqn:Ep; [|discriminate].
+          destruct (denote_fields rest _ fs0 _) as [[[f2 p2] e2]|] eqn:E; [|discriminate]. injection Ef as <- <- <-.
+          apply in_app_or in Hc as [Hc|Hc]; [|exact (IHf _ _ _ _ _ _ E c Hc)].
+          clear -Ep Hc. revert Ep Hc. generalize (@nil person). revert pl e1.
+          induction names as [|nm nr IHn]; intros pl e1 acc Ep Hc; cbn [denote_persons] in Ep.
+          * injection Ep as <- <-. contradiction.
+          * destruct (person_of_string nm) as [[pp rep]|? ?| |]; try discriminate.
+            destruct (denote_persons nr (acc ++ [pp])) as [[pl' e']|] eqn:E; [|discriminate]. injection Ep as <- <-.
+            apply in_app_or in Hc as [Hc|Hc]; [destruct rep; [destruct Hc as [<-|[]]; discriminate|contradiction]|exact (IHn _ _ _ E Hc)]. }
+    destruct (existsb _ (fst v)); injection E1 as <- <-.
+    + apply in_app_or in Hc as [Hc|[<-|[]]]; [exact (Hf c Hc)|discriminate].
+    + exact (Hf c Hc).
+Qed.
+
+Lemma wellformed_untouched items tail v e :
+  wf_file month_macros items -> no_at tail -> tail <> [] -> denote_items2 month_macros items ([], []) = Some (v, e) ->
+  exists d s, parse_bib Capture (file_text2 items tail) = Ret d s /\ untouched s /\ view d = v /\ p_errs s = map data_err e.
+Proof.
+  intros Hwf Htail Hne Hd.
+  destruct (file_roundtrip_full items tail v e Hwf Htail Hd) as (d & s & E & V & R).
+  exists d, s. split; [exact E|]. split; [|auto]. split.
+  - unfold parse_bib in E. rewrite (file_loop_rest items _ db_init (pst_init (file_text2 items tail) month_macros) tail d s Hwf Htail eq_refl E). exact Hne.
+  - intros x Hx. rewrite R in Hx. pose proof (data_errs_no_eof e x Hx) as Hc. exact (denote_errs_data _ _ _ _ _ Hd _ Hc).
+Qed.
+
+From Pybtex Require Proofs.BibStrictFirst.
+(* PREFIX CONFINEMENT, character level: whatever text y follows a well-formed file (ending in
+   at least one character of junk, e.g. a line end), the entries, the preamble and the reported
+   problems read from that file are exactly what it denotes and stay a prefix of the result *)
+Lemma prefix_confinement_lemma items tail v e y d2 s2 :
+  wf_file month_macros items -> no_at tail -> tail <> [] -> denote_items2 month_macros items ([], []) = Some (v, e) ->
+  parse_bib Capture (file_text2 items tail ++ y) = Ret d2 s2 ->
+  (exists l, map entry_view (db_entries d2) = fst v ++ l) /\ (exists l, map snd (db_preamble d2) = snd v ++ l) /\
+  (exists l, p_errs s2 = map data_err e ++ l).
+Proof.
+  intros Hwf Htail Hne Hd H2.
+  destruct (wellformed_untouched items tail v e Hwf Htail Hne Hd) as (d & s & E & Hu & V & R).
+  destruct (compositionality _ y d s E Hu) as (n & _ & Ec). rewrite Ec in H2.
+  destruct (Proofs.BibParser.bib_loop_append Capture _ _ _ _ _ H2) as [[l1 H1] [l2 H3]].
+  pose proof (Proofs.BibStrictFirst.mono_bib_loop n d (app s y)) as Hm. rewrite H2 in Hm. cbn in Hm. destruct Hm as [l3 H4].
+  unfold view in V. subst v. cbn [fst snd]. repeat split.
+  - exists (map entry_view l1). rewrite H1, map_app. reflexivity.
+  - exists (map snd l2). rewrite H3, map_app. reflexivity.
+  - exists l3. rewrite H4, R. reflexivity.
+Qed.
+
+(* ---- (2) a syntactic class of damaged commands: the command head is damaged ---- *)
+Fixpoint final_macros (macros : list (str * str)) (items : list (str * sitem)) : list (str * str) :=
+  match items with [] => macros | (_, i) :: r => final_macros (item_macros macros i) r end.
+
+(* reading well-formed items in front of arbitrary text b *)
+Lemma file_prefix3 : forall items fuel d st b v' e,
+  wf_file (p_macros st) items -> sc_rest (p_sc st) = file_text2 items b ->
+  denote_items2 (p_macros st) items (view d) = Some (v', e) ->
+  exists d' st', bib_loop process (length items + fuel) Capture d st = bib_loop process fuel Capture d' st'
+    /\ view d' = v' /\ sc_rest (p_sc st') = b /\ p_errs st' = p_errs st ++ map data_err e
+    /\ p_macros st' = final_macros (p_macros st) items.
+Proof.
+  induction items as [|[junk i] r IH]; intros fuel d st b v' e Hwf Hr Hd.
+  - cbn in Hd. injection Hd as <- <-. exists d, st. cbn. rewrite app_nil_r. auto.
+  - cbn [length plus bib_loop]. destruct Hwf as (Hj & Hi & Hwr).
+    cbn [file_text2] in Hr. unfold skip_to. rewrite Hr, (find_first_app _ junk c_at _ Hj eq_refl).
+    match goal with |- context [parse_command Capture ?s1] =>
+      destruct (item_reads Capture s1 i (file_text2 r b) Hi eq_refl) as (st2 & E & Hr2 & Her & Hma)
+    end.
+    rewrite E. cbn [p_macros p_errs set_cstart set_sc] in *. cbn [denote_items2] in Hd. cbn [final_macros].
+    destruct (item_cmd (p_macros st) i) as [c|] eqn:Ec.
+    + destruct (denote_cmd2 c (view d)) as [[v1 e1]|] eqn:Ed; [|discriminate].
+      destruct (denote_items2 (item_macros (p_macros st) i) r v1) as [[v2 e2]|] eqn:Ed2; [|discriminate]. injection Hd as <- <-.
+      destruct (process_denotes2 c d st2 v1 e1 Ed) as (d2 & Ep & Hv).
+      rewrite Ep. cbn [obind].
+      destruct (add_errs_core st2 (map data_err e1)) as [Hc1 Hc2].
+      destruct (IH fuel d2 (add_errs st2 (map data_err e1)) b v2 e2) as (d' & st' & E' & Hv' & Hb & He' & Hm').
+      * rewrite Hc2, Hma. exact Hwr.
+      * rewrite Hc1. exact Hr2.
+      * rewrite Hc2, Hma, Hv. exact Ed2.
+      * exists d', st'. split; [exact E'|]. split; [exact Hv'|]. split; [exact Hb|]. split.
+        -- rewrite He', add_errs_errs, Her, map_app, app_assoc. reflexivity.
+        -- rewrite Hm', Hc2, Hma. reflexivity.
+    + destruct (denote_items2 (item_macros (p_macros st) i) r (view d)) as [[v2 e2]|] eqn:Ed2; [|discriminate]. injection Hd as <- <-.
+      destruct (IH fuel d st2 b v2 e2) as (d' & st' & E' & Hv' & Hb & He' & Hm').
+      * rewrite Hma. exact Hwr.
+      * exact Hr2.
+      * rewrite Hma. exact Ed2.
+      * exists d', st'. split; [exact E'|]. split; [exact Hv'|]. split; [exact Hb|]. split; [rewrite He', Her; reflexivity|rewrite Hm', Hma; reflexivity].
+Qed.
+
+Lemma required_none_after_ws ps st ws x t : forallb is_space ws = true -> is_space x = false ->
+  sc_rest (p_sc st) = ws ++ x :: t -> first_match ps (x :: t) = None ->
+  exists sc', required ps st = Exc (mk_err E_TOKEN (set_sc st sc')) (set_sc st sc') /\ sc_rest sc' = x :: t.
+Proof.
+  intros Hws Hx Hr Hf. destruct (get_token_none_after_ws ps _ ws x t Hws Hx Hr Hf) as (c' & Hg & Hc).
+  unfold required. rewrite Hg. exists c'. split; [reflexivity|exact Hc].
+Qed.
+
+(* a command whose name is missing / replaced by something that cannot start a name:
+   '@' ws X ..., X neither whitespace nor a name-start character, no '@' in what follows *)
+Lemma damaged_head_untouched items junk ws X r v e :
+  wf_file month_macros items -> no_at junk -> no_at r -> forallb is_space ws = true ->
+  is_space X = false -> is_name_start X = false -> (X =? c_at) = false ->
+  denote_items2 month_macros items ([], []) = Some (v, e) ->
+  exists d s, parse_bib Capture (file_text2 items (junk ++ c_at :: ws ++ X :: r)) = Ret d s /\ untouched s /\ view d = v
+              /\ p_macros s = final_macros month_macros items
+              /\ exists te, p_errs s = map data_err e ++ [te] /\ e_cls te = E_TOKEN.
+Proof.
+  intros Hwf Hj Hr Hws HX1 HX2 HX3 Hd. unfold parse_bib.
+  set (text := file_text2 items (junk ++ c_at :: ws ++ X :: r)).
+  pose proof (file_text2_len items (junk ++ c_at :: ws ++ X :: r)) as Hlen. fold text in Hlen.
+  assert (Hl2 : (length items + 3 <= S (length text))%nat).
+  { assert (Hb : forall its b, (length its + length b <= length (file_text2 its b))%nat).
+    { induction its as [|[j0 i0] r0 IHi]; intros b; cbn [file_text2 length]; [lia|]. rewrite app_length. cbn [length].
+      assert (Hit : forall rest, (length rest <= length (item_text i0 rest))%nat).
+      { intros rest. destruct i0; cbn [item_text]; unfold entry_text_gen, after_key; repeat (rewrite ?app_length; cbn [length]); try lia.
+        destruct comma; cbn [length]; [|lia].
+        assert (Hft : forall fs tr wse cl rs, (length rs <= length (fields_text fs tr wse cl rs))%nat).
+        { induction fs0 as [|f fr IHf]; intros; cbn [fields_text]; rewrite app_length; cbn [length]; [lia|].
+          destruct fr; [destruct tr; cbn [length]; rewrite ?app_length; cbn [length]; lia|]. specialize (IHf tr wse cl rs). cbn [length]. lia. }
+        specialize (Hft fs trailing wsend (cl_char brace) rest). lia. }
+      specialize (Hit (file_text2 r0 b)). specialize (IHi b). lia. }
+    specialize (Hb items (junk ++ c_at :: ws ++ X :: r)). fold text in Hb. rewrite app_length in Hb. cbn [length] in Hb. rewrite app_length in Hb. cbn [length] in Hb. lia. }
+  replace (S (length text)) with (length items + (S (length text) - length items))%nat by lia.
+  destruct (file_prefix3 items (S (length text) - length items) db_init (pst_init text month_macros) _ v e Hwf eq_refl Hd)
+    as (d1 & st1 & E1 & V1 & R1 & Er1 & M1).
+  rewrite E1.
+  destruct (S (length text) - length items)%nat as [|[|fu]] eqn:Ef; [lia|lia|].
+  cbn [bib_loop]. unfold skip_to at 1. rewrite R1, (find_first_app _ junk c_at _ Hj eq_refl).
+  match goal with |- context [parse_command Capture ?s1x] => set (s1 := s1x) end.
+  assert (Hp : exists sc', parse_command Capture s1 = Exc (mk_err E_TOKEN (set_sc (set_value (set_fname (set_fields (set_key s1 None) []) None) []) sc'))
+                                                   (set_sc (set_value (set_fname (set_fields (set_key s1 None) []) None) []) sc') /\ sc_rest sc' = X :: r).
+  { unfold parse_command.
+    match goal with |- context [required [P_NAME] ?s0] =>
+      destruct (required_none_after_ws [P_NAME] s0 ws X r Hws HX1 eq_refl) as (sc' & E & Hsc) end.
+    - cbn [first_match match_pat]. rewrite HX2. reflexivity.
+    - exists sc'. rewrite E. split; [reflexivity|exact Hsc]. }
+  destruct Hp as (sc' & Ep & Hsc). rewrite Ep. cbn [handle_error obind bib_loop].
+  unfold skip_to. cbn [add_err set_sc p_sc]. rewrite Hsc.
+  rewrite (find_first_all_false _ (X :: r)).
+  2:{ intros x [<-|Hx]; [exact HX3|exact (Hr x Hx)]. }
+  eexists. eexists. split; [reflexivity|]. split; [|split; [exact V1|split; [exact M1|]]].
+  - split; [cbn; rewrite Hsc; discriminate|]. cbn [p_errs add_err set_sc set_value set_fname set_fields set_key set_cstart].
+    intros x Hx. apply in_app_or in Hx as [Hx|[<-|[]]]; [|cbn; discriminate].
+    unfold s1 in Hx. cbn [p_errs set_cstart set_sc] in Hx. rewrite Er1 in Hx. cbn in Hx. pose proof (data_errs_no_eof e x Hx) as Hc. exact (denote_errs_data _ _ _ _ _ Hd _ Hc).
+  - eexists. split; [unfold s1; cbn; rewrite Er1; reflexivity|reflexivity].
+Qed.
+
+(* SUFFIX CONFINEMENT for the damaged-head class, purely syntactic hypotheses *)
+Lemma suffix_confinement_damaged_head_lemma items junk ws X r v e items2 tail2 v2 e2 :
+  wf_file month_macros items -> no_at junk -> no_at r -> forallb is_space ws = true ->
+  is_space X = false -> is_name_start X = false -> (X =? c_at) = false ->
+  denote_items2 month_macros items ([], []) = Some (v, e) ->
+  wf_file (final_macros month_macros items) items2 -> no_at tail2 ->
+  denote_items2 (final_macros month_macros items) items2 v = Some (v2, e2) ->
+  exists d' s' te, parse_bib Capture (file_text2 items (junk ++ c_at :: ws ++ X :: r) ++ file_text2 items2 tail2) = Ret d' s'
+    /\ view d' = v2 /\ p_errs s' = map data_err e ++ [te] ++ map data_err e2 /\ e_cls te = E_TOKEN.
+Proof.
+  intros Hwf Hj Hr Hws HX1 HX2 HX3 Hd Hwf2 Ht2 Hd2.
+  destruct (damaged_head_untouched items junk ws X r v e Hwf Hj Hr Hws HX1 HX2 HX3 Hd) as (d & s & E & Hu & V & M & te & Er & Hc).
+  destruct (suffix_confinement_lemma _ d s items2 tail2 v2 e2 E Hu) as (d' & s' & E' & V' & Er').
+  - rewrite M. exact Hwf2.
+  - exact Ht2.
+  - rewrite M, V. exact Hd2.
+  - exists d', s', te. split; [exact E'|]. split; [exact V'|]. split; [|exact Hc]. rewrite Er', Er, <- app_assoc. reflexivity.
+Qed.
+
+(* ---- (3) an entry whose closing delimiter is missing / replaced: after the (possibly empty)
+   field list, where ',' or the closing delimiter is expected, comes another character cx *)
+Definition entry_text_x (brace : bool) (cx : char) (ws0 typ ws1 ws2 key wsk : str) (fs : list sfield)
+           (trailing : bool) (wsend rest : str) : str :=
+  ws0 ++ typ ++ ws1 ++ op_char brace :: ws2 ++ key ++ wsk ++ c_comma :: fields_text fs trailing wsend cx rest.
+
+Lemma entry_reads_x st brace (cx : char) ws0 typ ws1 ws2 key wsk fs trailing wsend rest :
+  forallb is_space ws0 = true -> forallb is_space ws1 = true -> forallb is_space ws2 = true ->
+  forallb is_space wsk = true -> forallb is_space wsend = true ->
+  is_entry_type typ = true -> is_key brace key = true -> Forall (wf_sfield (p_macros st)) fs ->
+  closer_char cx -> cx <> cl_char brace ->
+  sc_rest (p_sc st) = entry_text_x brace cx ws0 typ ws1 ws2 key wsk fs trailing wsend rest ->
+  exists st' te, parse_command Capture st = Ret (Some (CEntry typ (Some key) (map (field_result (p_macros st)) fs))) st'
+    /\ sc_rest (p_sc st') = cx :: rest /\ p_errs st' = p_errs st ++ [te] /\ e_cls te = E_TOKEN /\ p_macros st' = p_macros st.
+Proof.
+  intros H0 H1 H2 Hk Hend Htyp Hkey Hwf Hcx Hne Hr. unfold entry_text_x in Hr.
+  set (AK := c_comma :: fields_text fs trailing wsend cx rest) in *.
+  unfold is_entry_type in Htyp. apply andb_prop in Htyp as [Htyp Hp]. apply andb_prop in Htyp as [Htyp Hs].
+  apply andb_prop in Htyp as [Hname Hc]. apply negb_true_iff in Hp, Hs, Hc.
+  destruct (name_head typ Hname) as (t0 & t' & Ht0 & Hts & Htc).
+  unfold parse_command.
+  (* type *)
+  assert (Hf1 : first_match [P_NAME] (typ ++ ws1 ++ op_char brace :: ws2 ++ key ++ wsk ++ AK)
+                = Some (P_NAME, typ, ws1 ++ op_char brace :: ws2 ++ key ++ wsk ++ AK)).
+  { cbn [first_match]. rewrite (match_name typ _ Hname (head_ok_ws_then ws1 (op_char brace) _ H1 ltac:(destruct brace; reflexivity))). reflexivity. }
+  rewrite Ht0 in Hr, Hf1. cbn [app] in Hr, Hf1.
+  match goal with |- context [required [P_NAME] ?s0] =>
+    destruct (required_after_ws [P_NAME] s0 ws0 t0 _ _ _ _ H0 (name_char_not_space t0 Htc) Hr Hf1) as (sc1 & E1 & Hr1) end.
+  rewrite E1. cbn [obind]. cbv zeta. cbn [snd fst].
+  (* opening delimiter *)
+  assert (Hf2 : first_match [P_LIT 40; P_LIT c_lbrace] (op_char brace :: ws2 ++ key ++ wsk ++ AK)
+                = Some (P_LIT (op_char brace), [op_char brace], ws2 ++ key ++ wsk ++ AK))
+    by (destruct brace; reflexivity).
+  match goal with |- context [required [P_LIT 40; P_LIT c_lbrace] ?s1] =>
+    destruct (required_after_ws _ s1 ws1 (op_char brace) _ _ _ _ H1 ltac:(destruct brace; reflexivity) Hr1 Hf2) as (sc2 & E2 & Hr2) end.
+  rewrite E2. cbn [obind fst snd]. rewrite <- Ht0. rewrite Hc, Hs, Hp.
+  assert (Hb : (op_char brace =? c_lbrace) = brace) by (destruct brace; reflexivity). rewrite Hb.
+  (* key *)
+  unfold parse_entry_body.
+  destruct key as [|k0 k']; [discriminate|].
+  assert (Hk0 : is_space k0 = false).
+  { cbn [is_key forallb] in Hkey. apply andb_prop in Hkey as [Hx _]. unfold keyp in Hx.
+    destruct brace; apply negb_true_iff in Hx.
+    - apply orb_false_iff in Hx as [Hx _]. apply orb_false_iff in Hx as [Hx _]. exact Hx.
+    - apply orb_false_iff in Hx as [Hx _]. exact Hx. }
+  assert (Hhead : head_ok (keyp brace) (wsk ++ AK)).
+  { destruct wsk as [|w wsk']; cbn; [destruct brace; reflexivity|].
+    cbn in Hk. apply andb_prop in Hk as [Hw _]. destruct brace; cbn; rewrite Hw; reflexivity. }
+  assert (Hf3 : first_match [if brace then P_KEY_BRACE else P_KEY_PAREN] ((k0 :: k') ++ wsk ++ AK)
+                = Some (if brace then P_KEY_BRACE else P_KEY_PAREN, k0 :: k', wsk ++ AK)).
+  { cbn [first_match]. rewrite (match_key brace (k0 :: k') _ Hkey Hhead). reflexivity. }
+  cbn [app] in Hf3, Hr2.
+  match goal with |- context [required [if brace then P_KEY_BRACE else P_KEY_PAREN] ?s2] =>
+    destruct (required_after_ws _ s2 ws2 k0 _ _ _ _ H2 Hk0 Hr2 Hf3) as (sc3 & E3 & Hr3) end.
+  rewrite E3. cbn [obind snd].
+  match goal with |- context [parse_entry_fields (S ?n) Capture ?s3] => remember s3 as s3v eqn:Es3; remember n as fuel0 eqn:Efu end.
+  assert (Hr3' : sc_rest (p_sc s3v) = wsk ++ c_comma :: fields_text fs trailing wsend cx rest) by (subst s3v; exact Hr3).
+  cbn [parse_entry_fields]. unfold parse_field.
+  match goal with |- context [optional [P_NAME] ?s] =>
+    destruct (optional_none_after_ws [P_NAME] s wsk c_comma _ Hk eq_refl Hr3' eq_refl) as (sc4 & E4 & Hr4) end.
+  rewrite E4. cbn [obind p_fname set_sc set_value set_fname].
+  match goal with |- context [optional [P_LIT c_comma] ?s] =>
+    destruct (optional_after_ws [P_LIT c_comma] s [] c_comma _ (P_LIT c_comma) [c_comma] _ eq_refl eq_refl Hr4 eq_refl) as (sc5 & E5 & Hr5);
+    rewrite E5; cbn [obind];
+    destruct (fields_loop Capture fs fuel0 (set_sc s sc5) trailing wsend cx rest) as (st6 & E6 & Hr6 & Hfs & Hky & Her & Hma & Hcs)
+  end.
+  { subst fuel0. cbn [p_sc set_key set_sc]. rewrite Hr3. unfold AK. rewrite !app_length. cbn [length].
+    assert (Hl : forall fs' tr, (length fs' <= length (fields_text fs' tr wsend cx rest))%nat).
+    { induction fs' as [|f r IHf]; intros tr; cbn [fields_text length]; [lia|].
+      rewrite app_length. destruct f as [[[wsn nm] wse] pts]. cbn [render_sfield]. rewrite !app_length. cbn [length].
+      destruct r as [|f2 r']; [cbn [length]; destruct tr; cbn [length]; lia|]. specialize (IHf tr). cbn [length] in *. lia. }
+    specialize (Hl fs trailing). lia. }
+  { subst s3v. cbn. exact Hwf. }
+  { exact Hend. }
+  { exact Hcx. }
+  { exact Hr5. }
+  rewrite E6. cbn [obind].
+  destruct Hcx as ((Hc1 & _ & _) & _ & _).
+  destruct (required_none_after_ws [P_LIT (if brace then c_rbrace else 41)] st6 [] cx rest eq_refl Hc1 Hr6) as (sc7 & E7 & Hr7).
+  { destruct brace; cbn [first_match match_pat cl_char] in *; apply N.eqb_neq in Hne; rewrite Hne; reflexivity. }
+  rewrite E7. cbn [handle_error obind]. eexists. eexists. split; [|split; [|split; [|split]]].
+  - unfold make_result. cbn [p_key p_fields set_sc add_err]. rewrite Hky, Hfs. subst s3v. cbn. reflexivity.
+  - cbn. exact Hr7.
+  - cbn [p_errs add_err set_sc]. rewrite Her. subst s3v. cbn. reflexivity.
+  - reflexivity.
+  - cbn [p_macros add_err set_sc]. rewrite Hma. subst s3v. cbn. reflexivity.
+Qed.
+
+Lemma file_text2_lower its b : (length its + length b <= length (file_text2 its b))%nat.
+Proof.
+  induction its as [|[j0 i0] r0 IHi]; cbn [file_text2 length]; [lia|]. rewrite app_length. cbn [length].
+  assert (Hit : forall rest, (length rest <= length (item_text i0 rest))%nat).
+  { intros rest. destruct i0; cbn [item_text]; unfold entry_text_gen, after_key; repeat (rewrite ?app_length; cbn [length]); try lia.
+    destruct comma; cbn [length]; [|lia].
+    assert (Hft : forall fs tr wse cl rs, (length rs <= length (fields_text fs tr wse cl rs))%nat).
+    { induction fs0 as [|f fr IHf]; intros; cbn [fields_text]; rewrite app_length; cbn [length]; [lia|].
+      destruct fr; [destruct tr; cbn [length]; rewrite ?app_length; cbn [length]; lia|]. specialize (IHf tr wse cl rs). cbn [length]. lia. }
+    specialize (Hft fs trailing wsend (cl_char brace) rest). lia. }
+  specialize (Hit (file_text2 r0 b)). lia.
+Qed.
+
+Lemma damaged_close_untouched items junk brace cx ws0 typ ws1 ws2 key wsk fs trailing wsend r v e v1 e1 :
+  wf_file month_macros items -> no_at junk -> no_at r -> (cx =? c_at) = false ->
+  forallb is_space ws0 = true -> forallb is_space ws1 = true -> forallb is_space ws2 = true ->
+  forallb is_space wsk = true -> forallb is_space wsend = true ->
+  is_entry_type typ = true -> is_key brace key = true -> Forall (wf_sfield (final_macros month_macros items)) fs ->
+  closer_char cx -> cx <> cl_char brace ->
+  denote_items2 month_macros items ([], []) = Some (v, e) ->
+  denote_cmd2 (CEntry typ (Some key) (map (field_result (final_macros month_macros items)) fs)) v = Some (v1, e1) ->
+  exists d s te, parse_bib Capture (file_text2 items (junk ++ c_at :: entry_text_x brace cx ws0 typ ws1 ws2 key wsk fs trailing wsend r)) = Ret d s
+    /\ untouched s /\ view d = v1 /\ p_macros s = final_macros month_macros items
+    /\ p_errs s = map data_err e ++ [te] ++ map data_err e1 /\ e_cls te = E_TOKEN.
+Proof.
+  intros Hwf Hj Hr HX3 H0 H1 H2 Hk Hend Htyp Hkey Hfs Hcx Hne Hd Hd1. unfold parse_bib.
+  set (b := junk ++ c_at :: entry_text_x brace cx ws0 typ ws1 ws2 key wsk fs trailing wsend r).
+  set (text := file_text2 items b).
+  pose proof (file_text2_lower items b) as Hlen. fold text in Hlen.
+  assert (Hb2 : (3 <= length b)%nat).
+  { unfold b, entry_text_x. repeat (rewrite ?app_length; cbn [length]). lia. }
+  replace (S (length text)) with (length items + (S (length text) - length items))%nat by lia.
+  destruct (file_prefix3 items (S (length text) - length items) db_init (pst_init text month_macros) b v e Hwf eq_refl Hd)
+    as (d1 & st1 & E1 & V1 & R1 & Er1 & M1).
+  rewrite E1.
+  destruct (S (length text) - length items)%nat as [|[|fu]] eqn:Ef; [lia|lia|].
+  cbn [bib_loop]. unfold skip_to at 1. rewrite R1. unfold b. rewrite (find_first_app _ junk c_at _ Hj eq_refl).
+  match goal with |- context [parse_command Capture ?s1x] => set (s1 := s1x) end.
+  destruct (entry_reads_x s1 brace cx ws0 typ ws1 ws2 key wsk fs trailing wsend r H0 H1 H2 Hk Hend Htyp Hkey) as (st2 & te & Ep & Hr2 & Her2 & Hte & Hma2).
+  { unfold s1. cbn [p_macros set_cstart set_sc]. rewrite M1. exact Hfs. }
+  { exact Hcx. } { exact Hne. } { reflexivity. }
+  rewrite Ep.
+  assert (Hm1 : p_macros s1 = final_macros month_macros items) by (unfold s1; cbn; exact M1).
+  rewrite Hm1 in *.
+  destruct (process_denotes2 _ d1 st2 v1 e1 ltac:(rewrite V1; exact Hd1)) as (d2 & Epr & Hv2).
+  rewrite Epr. cbn [obind bib_loop].
+  destruct (add_errs_core st2 (map data_err e1)) as [Hc1 Hc2].
+  unfold skip_to. rewrite Hc1, Hr2.
+  rewrite (find_first_all_false _ (cx :: r)).
+  2:{ intros x [<-|Hx]; [exact HX3|exact (Hr x Hx)]. }
+  exists d2, (add_errs st2 (map data_err e1)), te. split; [reflexivity|].
+  assert (Herr : p_errs (add_errs st2 (map data_err e1)) = map data_err e ++ [te] ++ map data_err e1).
+  { rewrite add_errs_errs, Her2. unfold s1. cbn [p_errs set_cstart set_sc]. rewrite Er1. cbn. rewrite <- !app_assoc. reflexivity. }
+  split; [|split; [exact Hv2|split; [rewrite Hc2; exact Hma2|split; [exact Herr|exact Hte]]]].
+  split; [rewrite Hc1, Hr2; discriminate|].
+  intros x Hx. rewrite Herr in Hx. apply in_app_or in Hx as [Hx|Hx].
+  - pose proof (data_errs_no_eof e x Hx) as Hc. exact (denote_errs_data _ _ _ _ _ Hd _ Hc).
+  - apply in_app_or in Hx as [[<-|[]]|Hx]; [rewrite Hte; discriminate|].
+    pose proof (data_errs_no_eof e1 x Hx) as Hc.
+    assert (Hi : denote_items2 (final_macros month_macros items) [([], IEntry brace ws0 typ ws1 ws2 key wsk true fs trailing wsend)] v = Some (v1, e1 ++ [])).
+    { cbn [denote_items2 item_cmd]. rewrite Hd1. reflexivity. }
+    apply (denote_errs_data _ _ _ _ _ Hi). apply in_or_app. left. exact Hc.
+Qed.
+
+Lemma suffix_confinement_damaged_close_lemma items junk brace cx ws0 typ ws1 ws2 key wsk fs trailing wsend r v e v1 e1 items2 tail2 v2 e2 :
+  wf_file month_macros items -> no_at junk -> no_at r -> (cx =? c_at) = false ->
+  forallb is_space ws0 = true -> forallb is_space ws1 = true -> forallb is_space ws2 = true ->
+  forallb is_space wsk = true -> forallb is_space wsend = true ->
+  is_entry_type typ = true -> is_key brace key = true -> Forall (wf_sfield (final_macros month_macros items)) fs ->
+  closer_char cx -> cx <> cl_char brace ->
+  denote_items2 month_macros items ([], []) = Some (v, e) ->
+  denote_cmd2 (CEntry typ (Some key) (map (field_result (final_macros month_macros items)) fs)) v = Some (v1, e1) ->
+  wf_file (final_macros month_macros items) items2 -> no_at tail2 ->
+  denote_items2 (final_macros month_macros items) items2 v1 = Some (v2, e2) ->
+  exists d' s' te,
+    parse_bib Capture (file_text2 items (junk ++ c_at :: entry_text_x brace cx ws0 typ ws1 ws2 key wsk fs trailing wsend r)
+                       ++ file_text2 items2 tail2) = Ret d' s'
+    /\ view d' = v2 /\ p_errs s' = map data_err e ++ [te] ++ map data_err e1 ++ map data_err e2 /\ e_cls te = E_TOKEN.
+Proof.
+  intros Hwf Hj Hr HX3 H0 H1 H2 Hk Hend Htyp Hkey Hfs Hcx Hne Hd Hd1 Hwf2 Ht2 Hd2.
+  destruct (damaged_close_untouched items junk brace cx ws0 typ ws1 ws2 key wsk fs trailing wsend r v e v1 e1
+              Hwf Hj Hr HX3 H0 H1 H2 Hk Hend Htyp Hkey Hfs Hcx Hne Hd Hd1) as (d & s & te & E & Hu & V & M & Er & Hc).
+  destruct (suffix_confinement_lemma _ d s items2 tail2 v2 e2 E Hu) as (d' & s' & E' & V' & Er').
+  - rewrite M. exact Hwf2.
+  - exact Ht2.
+  - rewrite M, V. exact Hd2.
+  - exists d', s', te. split; [exact E'|]. split; [exact V'|]. split; [|exact Hc]. rewrite Er', Er, <- !app_assoc. reflexivity.
+Qed.
+
+Lemma denote_cmd_errs_data c v v1 e1 : denote_cmd2 c v = Some (v1, e1) -> forall x, In x e1 -> x <> E_EOF.
+Proof.
+  intros H x Hx. destruct c as [n f vv|n vv|typ [key|] fields]; cbn [denote_cmd2] in H; try discriminate; try (injection H as <- <-; contradiction).
+  assert (Hi : denote_items2 [] [([], IEntry true [] typ [] [] key [] true [] false [])] v = Some (v, [] ++ [])
+               \/ True) by (right; exact I).
+  destruct (denote_fields fields [] [] []) as [[[fs ps] ef]|] eqn:Ef; [|discriminate].
+  assert (Hf : forall c, In c ef -> c <> E_EOF).
+  { clear -Ef. revert Ef. generalize (@nil str). generalize (@nil (str * str)) at 1. generalize (@nil (str * list person)) at 1. revert fs ps ef.
+    induction fields as [|[fn pa] rest IHf]; intros fs ps ef ps0 fs0 seen Ef c Hc; cbn [denote_fields] in Ef.
+    - injection Ef as <- <- <-. contradiction.
+    - destruct (existsb (str_eqb (lower fn)) seen).
+      + destruct (denote_fields rest seen fs0 ps0) as [[[f2 p2] e2]|] eqn:E; [|discriminate]. injection Ef as <- <- <-.
+        destruct Hc as [<-|Hc]; [discriminate|exact (IHf _ _ _ _ _ _ E c Hc)].
+      + destruct (is_person_field (lower fn)); [|exact (IHf _ _ _ _ _ _ Ef c Hc)].
+        destruct (split_name_list _) as [names|? ?| |]; try discriminate.
+        destruct (denote_persons names []) as [[pl e1']|] eqn:Ep; [|discriminate].
+        destruct (denote_fields rest _ fs0 _) as [[[f2 p2] e2]|] eqn:E; [|discriminate]. injection Ef as <- <- <-.
+        apply in_app_or in Hc as [Hc|Hc]; [|exact (IHf _ _ _ _ _ _ E c Hc)].
+        clear -Ep Hc. revert Ep Hc. generalize (@nil person). revert pl e1'.
+        induction names as [|nm nr IHn]; intros pl e1' acc Ep Hc; cbn [denote_persons] in Ep.
+        * injection Ep as <- <-. contradiction.
+        * destruct (person_of_string nm) as [[pp rep]|? ?| |]; try discriminate.
+          destruct (denote_persons nr (acc ++ [pp])) as [[pl' e']|] eqn:E; [|discriminate]. injection Ep as <- <-.
+          apply in_app_or in Hc as [Hc|Hc]; [destruct rep; [destruct Hc as [<-|[]]; discriminate|contradiction]|exact (IHn _ _ _ E Hc)]. }
+  destruct (existsb _ (fst v)); injection H as <- <-.
+  - apply in_app_or in Hx as [Hx|[<-|[]]]; [exact (Hf x Hx)|discriminate].
+  - exact (Hf x Hx).
+Qed.
+
+(* generic: a damaged command B after a well-formed file, on which parse_command returns a
+   (partial) entry after reporting one 'token required' problem, standing at cx :: r *)
+Lemma class_ret_untouched items junk (B : str) cx r typ key (fields : list (str * list str)) v e v1 e1 :
+  wf_file month_macros items -> no_at junk -> no_at r -> (cx =? c_at) = false -> (2 <= length B)%nat ->
+  (forall s1, sc_rest (p_sc s1) = B -> p_macros s1 = final_macros month_macros items ->
+     exists st2 te, parse_command Capture s1 = Ret (Some (CEntry typ (Some key) fields)) st2 /\ sc_rest (p_sc st2) = cx :: r
+                    /\ p_errs st2 = p_errs s1 ++ [te] /\ e_cls te = E_TOKEN /\ p_macros st2 = p_macros s1) ->
+  denote_items2 month_macros items ([], []) = Some (v, e) ->
+  denote_cmd2 (CEntry typ (Some key) fields) v = Some (v1, e1) ->
+  exists d s te, parse_bib Capture (file_text2 items (junk ++ c_at :: B)) = Ret d s
+    /\ untouched s /\ view d = v1 /\ p_macros s = final_macros month_macros items
+    /\ p_errs s = map data_err e ++ [te] ++ map data_err e1 /\ e_cls te = E_TOKEN.
+Proof.
+  intros Hwf Hj Hr HX3 HB Hcmd Hd Hd1. unfold parse_bib.
+  set (b := junk ++ c_at :: B).
+  set (text := file_text2 items b).
+  pose proof (file_text2_lower items b) as Hlen. fold text in Hlen.
+  assert (Hb2 : (3 <= length b)%nat).
+  { unfold b. rewrite app_length. cbn [length]. lia. }
+  replace (S (length text)) with (length items + (S (length text) - length items))%nat by lia.
+  destruct (file_prefix3 items (S (length text) - length items) db_init (pst_init text month_macros) b v e Hwf eq_refl Hd)
+    as (d1 & st1 & E1 & V1 & R1 & Er1 & M1).
+  rewrite E1.
+  destruct (S (length text) - length items)%nat as [|[|fu]] eqn:Ef; [lia|lia|].
+  cbn [bib_loop]. unfold skip_to at 1. rewrite R1. unfold b. rewrite (find_first_app _ junk c_at _ Hj eq_refl).
+  match goal with |- context [parse_command Capture ?s1x] => set (s1 := s1x) end.
+  assert (Hm1 : p_macros s1 = final_macros month_macros items) by (unfold s1; cbn; exact M1).
+  destruct (Hcmd s1 eq_refl Hm1) as (st2 & te & Ep & Hr2 & Her2 & Hte & Hma2).
+  rewrite Ep. rewrite Hm1 in *.
+  destruct (process_denotes2 _ d1 st2 v1 e1 ltac:(rewrite V1; exact Hd1)) as (d2 & Epr & Hv2).
+  rewrite Epr. cbn [obind bib_loop].
+  destruct (add_errs_core st2 (map data_err e1)) as [Hc1 Hc2].
+  unfold skip_to. rewrite Hc1, Hr2.
+  rewrite (find_first_all_false _ (cx :: r)).
+  2:{ intros x [<-|Hx]; [exact HX3|exact (Hr x Hx)]. }
+  exists d2, (add_errs st2 (map data_err e1)), te. split; [reflexivity|].
+  assert (Herr : p_errs (add_errs st2 (map data_err e1)) = map data_err e ++ [te] ++ map data_err e1).
+  { rewrite add_errs_errs, Her2. unfold s1. cbn [p_errs set_cstart set_sc]. rewrite Er1. cbn. rewrite <- !app_assoc. reflexivity. }
+  split; [|split; [exact Hv2|split; [rewrite Hc2; exact Hma2|split; [exact Herr|exact Hte]]]].
+  split; [rewrite Hc1, Hr2; discriminate|].
+  intros x Hx. rewrite Herr in Hx. apply in_app_or in Hx as [Hx|Hx].
+  - pose proof (data_errs_no_eof e x Hx) as Hc. exact (denote_errs_data _ _ _ _ _ Hd _ Hc).
+  - apply in_app_or in Hx as [[<-|[]]|Hx]; [rewrite Hte; discriminate|].
+    pose proof (data_errs_no_eof e1 x Hx) as Hc.
+    exact (denote_cmd_errs_data _ _ _ _ Hd1 _ Hc).
+Qed.
+
+(* ---- (4) a broken field: a field name not followed by '=', or '=' not followed by a value *)
+Inductive broken := BNoEq (wsn name wse : str) (X : char) | BNoVal (wsn name wse wsv : str) (X : char).
+Definition broken_text (b : broken) (r : str) : str :=
+  match b with
+  | BNoEq wsn name wse X => wsn ++ name ++ wse ++ X :: r
+  | BNoVal wsn name wse wsv X => wsn ++ name ++ wse ++ 61 :: wsv ++ X :: r
+  end.
+Definition broken_char (b : broken) : char := match b with BNoEq _ _ _ X => X | BNoVal _ _ _ _ X => X end.
+Definition wf_broken (b : broken) : Prop :=
+  match b with
+  | BNoEq wsn name wse X =>
+    forallb is_space wsn = true /\ forallb is_space wse = true /\ is_name name = true /\
+    is_space X = false /\ X <> 61 /\ is_name_char X = false
+  | BNoVal wsn name wse wsv X =>
+    forallb is_space wsn = true /\ forallb is_space wse = true /\ forallb is_space wsv = true /\ is_name name = true /\
+    is_space X = false /\ X <> c_quote /\ X <> c_lbrace /\ is_name_char X = false
+  end.
+
+Lemma parse_field_broken m st b r : wf_broken b -> sc_rest (p_sc st) = broken_text b r ->
+  exists st' te, parse_field m st = Exc te st' /\ sc_rest (p_sc st') = broken_char b :: r /\ e_cls te = E_TOKEN /\
+    p_errs st' = p_errs st /\ p_fields st' = p_fields st /\ p_key st' = p_key st /\ p_macros st' = p_macros st /\ p_cstart st' = p_cstart st.
+Proof.
+  intros Hwf Hr. unfold parse_field. destruct b as [wsn name wse X|wsn name wse wsv X]; cbn [broken_text broken_char wf_broken] in *.
+  - destruct Hwf as (Hwsn & Hwse & Hname & HX1 & HX2 & HX3).
+    destruct (name_head name Hname) as (c0 & t0 & Hn0 & Hs0 & Hc0).
+    assert (Hf : first_match [P_NAME] (name ++ wse ++ X :: r) = Some (P_NAME, name, wse ++ X :: r)).
+    { cbn [first_match]. rewrite (match_name name _ Hname (head_ok_ws_then wse X r Hwse HX3)). reflexivity. }
+    rewrite Hn0 in Hr, Hf. cbn [app] in Hr, Hf.
+    destruct (optional_after_ws [P_NAME] st wsn c0 _ _ _ _ Hwsn (name_char_not_space c0 Hc0) Hr Hf) as (sc1 & H1 & Hr1).
+    rewrite H1. cbn [obind]. cbv zeta. cbn [snd].
+    match goal with |- context [required [P_LIT 61] ?s2 >>= _] =>
+      destruct (required_none_after_ws [P_LIT 61] s2 wse X r Hwse HX1 Hr1) as (sc2 & E2 & Hr2) end.
+    { cbn [first_match match_pat]. apply N.eqb_neq in HX2. rewrite HX2. reflexivity. }
+    rewrite E2. cbn [obind]. eexists. eexists. split; [reflexivity|]. cbn. repeat split; auto.
+  - destruct Hwf as (Hwsn & Hwse & Hwsv & Hname & HX1 & HX2 & HX3 & HX4).
+    destruct (name_head name Hname) as (c0 & t0 & Hn0 & Hs0 & Hc0).
+    assert (Hf : first_match [P_NAME] (name ++ wse ++ 61 :: wsv ++ X :: r) = Some (P_NAME, name, wse ++ 61 :: wsv ++ X :: r)).
+    { cbn [first_match]. rewrite (match_name name _ Hname (head_ok_ws_then wse 61 _ Hwse eq_refl)). reflexivity. }
+    rewrite Hn0 in Hr, Hf. cbn [app] in Hr, Hf.
+    destruct (optional_after_ws [P_NAME] st wsn c0 _ _ _ _ Hwsn (name_char_not_space c0 Hc0) Hr Hf) as (sc1 & H1 & Hr1).
+    rewrite H1. cbn [obind]. cbv zeta. cbn [snd].
+    match goal with |- context [required [P_LIT 61] ?s2 >>= _] =>
+      destruct (required_after_ws [P_LIT 61] s2 wse 61 _ (P_LIT 61) [61] (wsv ++ X :: r) Hwse eq_refl Hr1 eq_refl) as (sc2 & E2 & Hr2) end.
+    rewrite E2. cbn [obind]. unfold parse_value.
+    match goal with |- context [parse_value_loop (S ?n) m [] ?s3] => remember s3 as s3v eqn:Es3; remember n as fu0 end.
+    cbn [parse_value_loop]. unfold parse_value_part.
+    assert (Hr3 : sc_rest (p_sc s3v) = wsv ++ X :: r) by (subst s3v; exact Hr2).
+    destruct (required_none_after_ws [P_LIT c_quote; P_LIT c_lbrace; P_NUMBER; P_NAME] s3v wsv X r Hwsv HX1 Hr3) as (sc3 & E3 & Hr3').
+    { cbn [first_match match_pat]. apply N.eqb_neq in HX2, HX3. rewrite HX2, HX3.
+      unfold nonempty_span. cbn [span]. rewrite (not_name_char_not_digit X HX4), (name_start_char_false X HX4). reflexivity. }
+    rewrite E3. cbn [obind]. eexists. eexists. split; [reflexivity|]. subst s3v. cbn. repeat split; auto.
+Qed.
+
+Fixpoint fields_pre (fs : list sfield) (tl : str) : str :=
+  match fs with [] => tl | f :: r => render_sfield f ++ c_comma :: fields_pre r tl end.
+
+Lemma fields_loop_broken m : forall fs fuel st b r,
+  (length fs < fuel)%nat -> Forall (wf_sfield (p_macros st)) fs -> wf_broken b ->
+  sc_rest (p_sc st) = fields_pre fs (broken_text b r) ->
+  exists st' te, parse_entry_fields fuel m st = Exc te st' /\ sc_rest (p_sc st') = broken_char b :: r /\ e_cls te = E_TOKEN /\
+    p_fields st' = p_fields st ++ map (field_result (p_macros st)) fs /\
+    p_key st' = p_key st /\ p_errs st' = p_errs st /\ p_macros st' = p_macros st /\ p_cstart st' = p_cstart st.
+Proof.
+  induction fs as [|f r0 IH]; intros fuel st b r Hf Hwf Hb Hr; (destruct fuel as [|fu]; [cbn in Hf; lia|]); cbn [parse_entry_fields].
+  - cbn [fields_pre] in Hr.
+    match goal with |- context [parse_field m ?s0] =>
+      destruct (parse_field_broken m s0 b r Hb Hr) as (st' & te & E & Hr' & Hte & He & Hfs & Hk & Hm & Hc) end.
+    rewrite E. cbn [obind]. exists st', te. cbn in *. rewrite app_nil_r. repeat split; auto.
+  - inversion Hwf as [|? ? Hwf1 Hwfr]; subst. cbn [fields_pre] in Hr.
+    match goal with |- context [parse_field m ?s0] =>
+      destruct (parse_field_reads m s0 f c_comma (fields_pre r0 (broken_text b r)) Hwf1 comma_stop Hr) as (sc1 & H1 & Hr1) end.
+    rewrite H1. cbn [obind p_fname p_value p_fields p_macros set_value set_fname].
+    destruct f as [[[wsn name] wse] parts]. destruct Hwf1 as (_ & _ & _ & Hne & _).
+    destruct parts as [|p0 ps]; [congruence|]. cbn [field_result fst snd map].
+    match goal with |- context [optional [P_LIT c_comma] ?s2] =>
+      destruct (optional_after_ws [P_LIT c_comma] s2 [] c_comma _ (P_LIT c_comma) [c_comma] _ eq_refl eq_refl Hr1 eq_refl) as (sc2 & H2 & Hr2);
+      rewrite H2; cbn [obind];
+      destruct (IH fu (set_sc s2 sc2) b r ltac:(cbn [length] in *; lia) Hwfr Hb Hr2)
+        as (st' & te & H3 & Hr3 & Hte & Hfs & Hk & He & Hm & Hcs)
+    end.
+    rewrite H3. exists st', te. split; [reflexivity|]. split; [exact Hr3|]. split; [exact Hte|]. cbn in Hfs, Hk, He, Hm, Hcs |- *.
+    rewrite Hfs, <- app_assoc. repeat split; auto.
+Qed.
+
+Lemma entry_reads_broken st brace ws0 typ ws1 ws2 key wsk fs (bk : broken) rest :
+  forallb is_space ws0 = true -> forallb is_space ws1 = true -> forallb is_space ws2 = true ->
+  forallb is_space wsk = true ->
+  is_entry_type typ = true -> is_key brace key = true -> Forall (wf_sfield (p_macros st)) fs ->
+  wf_broken bk ->
+  sc_rest (p_sc st) = ws0 ++ typ ++ ws1 ++ op_char brace :: ws2 ++ key ++ wsk ++ c_comma :: fields_pre fs (broken_text bk rest) ->
+  exists st' te, parse_command Capture st = Ret (Some (CEntry typ (Some key) (map (field_result (p_macros st)) fs))) st'
+    /\ sc_rest (p_sc st') = broken_char bk :: rest /\ p_errs st' = p_errs st ++ [te] /\ e_cls te = E_TOKEN /\ p_macros st' = p_macros st.
+Proof.
+  intros H0 H1 H2 Hk Htyp Hkey Hwf Hbk Hr.
+  set (AK := c_comma :: fields_pre fs (broken_text bk rest)) in *.
+  unfold is_entry_type in Htyp. apply andb_prop in Htyp as [Htyp Hp]. apply andb_prop in Htyp as [Htyp Hs].
+  apply andb_prop in Htyp as [Hname Hc]. apply negb_true_iff in Hp, Hs, Hc.
+  destruct (name_head typ Hname) as (t0 & t' & Ht0 & Hts & Htc).
+  unfold parse_command.
+  (* type *)
+  assert (Hf1 : first_match [P_NAME] (typ ++ ws1 ++ op_char brace :: ws2 ++ key ++ wsk ++ AK)
+                = Some (P_NAME, typ, ws1 ++ op_char brace :: ws2 ++ key ++ wsk ++ AK)).
+  { cbn [first_match]. rewrite (match_name typ _ Hname (head_ok_ws_then ws1 (op_char brace) _ H1 ltac:(destruct brace; reflexivity))). reflexivity. }
+  rewrite Ht0 in Hr, Hf1. cbn [app] in Hr, Hf1.
+  match goal with |- context [required [P_NAME] ?s0] =>
+    destruct (required_after_ws [P_NAME] s0 ws0 t0 _ _ _ _ H0 (name_char_not_space t0 Htc) Hr Hf1) as (sc1 & E1 & Hr1) end.
+  rewrite E1. cbn [obind]. cbv zeta. cbn [snd fst].
+  (* opening delimiter *)
+  assert (Hf2 : first_match [P_LIT 40; P_LIT c_lbrace] (op_char brace :: ws2 ++ key ++ wsk ++ AK)
+                = Some (P_LIT (op_char brace), [op_char brace], ws2 ++ key ++ wsk ++ AK))
+    by (destruct brace; reflexivity).
+  match goal with |- context [required [P_LIT 40; P_LIT c_lbrace] ?s1] =>
+    destruct (required_after_ws _ s1 ws1 (op_char brace) _ _ _ _ H1 ltac:(destruct brace; reflexivity) Hr1 Hf2) as (sc2 & E2 & Hr2) end.
+  rewrite E2. cbn [obind fst snd]. rewrite <- Ht0. rewrite Hc, Hs, Hp.
+  assert (Hb : (op_char brace =? c_lbrace) = brace) by (destruct brace; reflexivity). rewrite Hb.
+  (* key *)
+  unfold parse_entry_body.
+  destruct key as [|k0 k']; [discriminate|].
+  assert (Hk0 : is_space k0 = false).
+  { cbn [is_key forallb] in Hkey. apply andb_prop in Hkey as [Hx _]. unfold keyp in Hx.
+    destruct brace; apply negb_true_iff in Hx.
+    - apply orb_false_iff in Hx as [Hx _]. apply orb_false_iff in Hx as [Hx _]. exact Hx.
+    - apply orb_false_iff in Hx as [Hx _]. exact Hx. }
+  assert (Hhead : head_ok (keyp brace) (wsk ++ AK)).
+  { destruct wsk as [|w wsk']; cbn; [destruct brace; reflexivity|].
+    cbn in Hk. apply andb_prop in Hk as [Hw _]. destruct brace; cbn; rewrite Hw; reflexivity. }
+  assert (Hf3 : first_match [if brace then P_KEY_BRACE else P_KEY_PAREN] ((k0 :: k') ++ wsk ++ AK)
+                = Some (if brace then P_KEY_BRACE else P_KEY_PAREN, k0 :: k', wsk ++ AK)).
+  { cbn [first_match]. rewrite (match_key brace (k0 :: k') _ Hkey Hhead). reflexivity. }
+  cbn [app] in Hf3, Hr2.
+  match goal with |- context [required [if brace then P_KEY_BRACE else P_KEY_PAREN] ?s2] =>
+    destruct (required_after_ws _ s2 ws2 k0 _ _ _ _ H2 Hk0 Hr2 Hf3) as (sc3 & E3 & Hr3) end.
+  rewrite E3. cbn [obind snd].
+  match goal with |- context [parse_entry_fields (S ?n) Capture ?s3] => remember s3 as s3v eqn:Es3; remember n as fuel0 eqn:Efu end.
+  assert (Hr3' : sc_rest (p_sc s3v) = wsk ++ c_comma :: fields_pre fs (broken_text bk rest)) by (subst s3v; exact Hr3).
+  cbn [parse_entry_fields]. unfold parse_field.
+  match goal with |- context [optional [P_NAME] ?s] =>
+    destruct (optional_none_after_ws [P_NAME] s wsk c_comma _ Hk eq_refl Hr3' eq_refl) as (sc4 & E4 & Hr4) end.
+  rewrite E4. cbn [obind p_fname set_sc set_value set_fname].
+  match goal with |- context [optional [P_LIT c_comma] ?s] =>
+    destruct (optional_after_ws [P_LIT c_comma] s [] c_comma _ (P_LIT c_comma) [c_comma] _ eq_refl eq_refl Hr4 eq_refl) as (sc5 & E5 & Hr5);
+    rewrite E5; cbn [obind];
+    destruct (fields_loop_broken Capture fs fuel0 (set_sc s sc5) bk rest) as (st6 & te & E6 & Hr6 & Hte & Hfs & Hky & Her & Hma & Hcs)
+  end.
+  { subst fuel0. cbn [p_sc set_key set_sc]. rewrite Hr3. unfold AK. rewrite !app_length. cbn [length].
+    assert (Hl : forall fs' tl, (length fs' <= length (fields_pre fs' tl))%nat).
+    { induction fs' as [|f r IHf]; intros tl; cbn [fields_pre length]; [lia|].
+      rewrite app_length. cbn [length]. specialize (IHf tl). lia. }
+    specialize (Hl fs (broken_text bk rest)). lia. }
+  { subst s3v. cbn. exact Hwf. }
+  { exact Hbk. }
+  { exact Hr5. }
+  rewrite E6. cbn [obind handle_error]. eexists. exists te. split; [|split; [|split; [|split]]].
+  - unfold make_result. cbn [p_key p_fields set_sc add_err]. rewrite Hky, Hfs. subst s3v. cbn. reflexivity.
+  - cbn. exact Hr6.
+  - cbn [p_errs add_err set_sc]. rewrite Her. subst s3v. cbn. reflexivity.
+  - exact Hte.
+  - cbn [p_macros add_err set_sc]. rewrite Hma. subst s3v. cbn. reflexivity.
+Qed.
+
+Lemma broken_text_len b r : (1 <= length (broken_text b r))%nat.
+Proof.
+  destruct b as [wsn name wse X|wsn name wse wsv X]; cbn [broken_text]; repeat (rewrite ?app_length; cbn [length]); lia.
+Qed.
+
+Lemma suffix_confinement_broken_field_lemma items junk brace ws0 typ ws1 ws2 key wsk fs bk r v e v1 e1 items2 tail2 v2 e2 :
+  wf_file month_macros items -> no_at junk -> no_at r -> (broken_char bk =? c_at) = false ->
+  forallb is_space ws0 = true -> forallb is_space ws1 = true -> forallb is_space ws2 = true -> forallb is_space wsk = true ->
+  is_entry_type typ = true -> is_key brace key = true -> Forall (wf_sfield (final_macros month_macros items)) fs ->
+  wf_broken bk ->
+  denote_items2 month_macros items ([], []) = Some (v, e) ->
+  denote_cmd2 (CEntry typ (Some key) (map (field_result (final_macros month_macros items)) fs)) v = Some (v1, e1) ->
+  wf_file (final_macros month_macros items) items2 -> no_at tail2 ->
+  denote_items2 (final_macros month_macros items) items2 v1 = Some (v2, e2) ->
+  exists d' s' te,
+    parse_bib Capture (file_text2 items (junk ++ c_at :: ws0 ++ typ ++ ws1 ++ op_char brace :: ws2 ++ key ++ wsk ++ c_comma :: fields_pre fs (broken_text bk r))
+                       ++ file_text2 items2 tail2) = Ret d' s'
+    /\ view d' = v2 /\ p_errs s' = map data_err e ++ [te] ++ map data_err e1 ++ map data_err e2 /\ e_cls te = E_TOKEN.
+Proof.
+  intros Hwf Hj Hr HX3 H0 H1 H2 Hk Htyp Hkey Hfs Hbk Hd Hd1 Hwf2 Ht2 Hd2.
+  destruct (class_ret_untouched items junk
+              (ws0 ++ typ ++ ws1 ++ op_char brace :: ws2 ++ key ++ wsk ++ c_comma :: fields_pre fs (broken_text bk r))
+              (broken_char bk) r typ key (map (field_result (final_macros month_macros items)) fs) v e v1 e1 Hwf Hj Hr HX3)
+    as (d & s & te & E & Hu & V & M & Er & Hc).
+  - pose proof (broken_text_len bk r). assert (Hl : forall fs' tl, (length tl <= length (fields_pre fs' tl))%nat).
+    { induction fs' as [|f r0 IHf]; intros tl; cbn [fields_pre]; [lia|]. rewrite app_length. cbn [length]. specialize (IHf tl). lia. }
+    specialize (Hl fs (broken_text bk r)). repeat (rewrite ?app_length; cbn [length]). lia.
+  - intros s1 Hs1 Hm1.
+    destruct (entry_reads_broken s1 brace ws0 typ ws1 ws2 key wsk fs bk r H0 H1 H2 Hk Htyp Hkey) as (st2 & te & Ep & Hr2 & Her2 & Hte & Hma2).
+    + rewrite Hm1. exact Hfs.
+    + exact Hbk.
+    + exact Hs1.
+    + exists st2, te. rewrite Hm1 in Ep. auto.
+  - exact Hd.
+  - exact Hd1.
+  - destruct (suffix_confinement_lemma _ d s items2 tail2 v2 e2 E Hu) as (d' & s' & E' & V' & Er').
+    + rewrite M. exact Hwf2.
+    + exact Ht2.
+    + rewrite M, V. exact Hd2.
+    + exists d', s', te. split; [exact E'|]. split; [exact V'|]. split; [|exact Hc]. rewrite Er', Er, <- !app_assoc. reflexivity.
+Qed.
+
+(* generic: a damaged command B on which parse_command raises 'token required' (before its
+   body), standing at X :: r *)
+Lemma class_exc_untouched items junk (B : str) X r v e :
+  wf_file month_macros items -> no_at junk -> no_at r -> (X =? c_at) = false -> (2 <= length B)%nat ->
+  (forall s1, sc_rest (p_sc s1) = B ->
+     exists st2 te, parse_command Capture s1 = Exc te st2 /\ sc_rest (p_sc st2) = X :: r /\ e_cls te = E_TOKEN
+                    /\ p_errs st2 = p_errs s1 /\ p_macros st2 = p_macros s1) ->
+  denote_items2 month_macros items ([], []) = Some (v, e) ->
+  exists d s, parse_bib Capture (file_text2 items (junk ++ c_at :: B)) = Ret d s /\ untouched s /\ view d = v
+              /\ p_macros s = final_macros month_macros items
+              /\ exists te, p_errs s = map data_err e ++ [te] /\ e_cls te = E_TOKEN.
+Proof.
+  intros Hwf Hj Hr HX3 HB Hcmd Hd. unfold parse_bib.
+  set (text := file_text2 items (junk ++ c_at :: B)).
+  pose proof (file_text2_lower items (junk ++ c_at :: B)) as Hlen. fold text in Hlen.
+  assert (Hl2 : (length items + 3 <= S (length text))%nat) by (rewrite app_length in Hlen; cbn [length] in Hlen; lia).
+  replace (S (length text)) with (length items + (S (length text) - length items))%nat by lia.
+  destruct (file_prefix3 items (S (length text) - length items) db_init (pst_init text month_macros) _ v e Hwf eq_refl Hd)
+    as (d1 & st1 & E1 & V1 & R1 & Er1 & M1).
+  rewrite E1.
+  destruct (S (length text) - length items)%nat as [|[|fu]] eqn:Ef; [lia|lia|].
+  cbn [bib_loop]. unfold skip_to at 1. rewrite R1, (find_first_app _ junk c_at _ Hj eq_refl).
+  match goal with |- context [parse_command Capture ?s1x] => set (s1 := s1x) end.
+  destruct (Hcmd s1 eq_refl) as (st2 & te & Ep & Hsc & Hte & Her2 & Hma2).
+  rewrite Ep. cbn [handle_error obind bib_loop].
+  unfold skip_to. cbn [add_err p_sc]. rewrite Hsc.
+  rewrite (find_first_all_false _ (X :: r)).
+  2:{ intros x [<-|Hx]; [exact HX3|exact (Hr x Hx)]. }
+  eexists. eexists. split; [reflexivity|]. split; [|split; [exact V1|split; [cbn [p_macros add_err]; rewrite Hma2; unfold s1; cbn; exact M1|]]].
+  - split; [cbn; rewrite Hsc; discriminate|]. cbn [p_errs add_err].
+    intros x Hx. apply in_app_or in Hx as [Hx|[<-|[]]]; [|rewrite Hte; discriminate].
+    rewrite Her2 in Hx. unfold s1 in Hx. cbn [p_errs set_cstart set_sc] in Hx. rewrite Er1 in Hx. cbn in Hx.
+    pose proof (data_errs_no_eof e x Hx) as Hc. exact (denote_errs_data _ _ _ _ _ Hd _ Hc).
+  - exists te. split; [cbn [p_errs add_err]; rewrite Her2; unfold s1; cbn; rewrite Er1; reflexivity|exact Hte].
+Qed.
+
+(* ---- (5) the opening delimiter is missing / replaced: '@' ws type ws X ... *)
+Lemma head_ok_ws_or ws1 X r : forallb is_space ws1 = true -> (ws1 <> [] \/ is_name_char X = false) -> head_ok is_name_char (ws1 ++ X :: r).
+Proof.
+  intros Hws [Hne|Hx]; [|apply head_ok_ws_then; assumption].
+  destruct ws1 as [|w ws']; [congruence|]. cbn in Hws |- *. apply andb_prop in Hws as [Hw _]. apply space_not_name_char. exact Hw.
+Qed.
+
+Lemma no_opener_reads s1 ws0 typ ws1 X r :
+  forallb is_space ws0 = true -> forallb is_space ws1 = true -> is_name typ = true ->
+  is_space X = false -> X <> 40 -> X <> c_lbrace -> (ws1 <> [] \/ is_name_char X = false) ->
+  sc_rest (p_sc s1) = ws0 ++ typ ++ ws1 ++ X :: r ->
+  exists st2 te, parse_command Capture s1 = Exc te st2 /\ sc_rest (p_sc st2) = X :: r /\ e_cls te = E_TOKEN
+                 /\ p_errs st2 = p_errs s1 /\ p_macros st2 = p_macros s1.
+Proof.
+  intros H0 H1 Hname HX1 HX2 HX3 HX4 Hr. unfold parse_command.
+  destruct (name_head typ Hname) as (t0 & t' & Ht0 & Hts & Htc).
+  assert (Hf1 : first_match [P_NAME] (typ ++ ws1 ++ X :: r) = Some (P_NAME, typ, ws1 ++ X :: r)).
+  { cbn [first_match]. rewrite (match_name typ _ Hname (head_ok_ws_or ws1 X r H1 HX4)). reflexivity. }
+  rewrite Ht0 in Hr, Hf1. cbn [app] in Hr, Hf1.
+  match goal with |- context [required [P_NAME] ?s0] =>
+    destruct (required_after_ws [P_NAME] s0 ws0 t0 _ _ _ _ H0 (name_char_not_space t0 Htc) Hr Hf1) as (sc1 & E1 & Hr1) end.
+  rewrite E1. cbn [obind]. cbv zeta.
+  match goal with |- context [required [P_LIT 40; P_LIT c_lbrace] ?s] =>
+    destruct (required_none_after_ws [P_LIT 40; P_LIT c_lbrace] s ws1 X r H1 HX1 Hr1) as (sc2 & E2 & Hr2) end.
+  { cbn [first_match match_pat]. apply N.eqb_neq in HX2, HX3. rewrite HX2, HX3. reflexivity. }
+  rewrite E2. cbn [obind]. eexists. eexists. split; [reflexivity|]. cbn. auto.
+Qed.
+
+Lemma suffix_confinement_no_opener_lemma items junk ws0 typ ws1 X r v e items2 tail2 v2 e2 :
+  wf_file month_macros items -> no_at junk -> no_at r -> (X =? c_at) = false ->
+  forallb is_space ws0 = true -> forallb is_space ws1 = true -> is_name typ = true ->
+  is_space X = false -> X <> 40 -> X <> c_lbrace -> (ws1 <> [] \/ is_name_char X = false) ->
+  denote_items2 month_macros items ([], []) = Some (v, e) ->
+  wf_file (final_macros month_macros items) items2 -> no_at tail2 ->
+  denote_items2 (final_macros month_macros items) items2 v = Some (v2, e2) ->
+  exists d' s' te, parse_bib Capture (file_text2 items (junk ++ c_at :: ws0 ++ typ ++ ws1 ++ X :: r) ++ file_text2 items2 tail2) = Ret d' s'
+    /\ view d' = v2 /\ p_errs s' = map data_err e ++ [te] ++ map data_err e2 /\ e_cls te = E_TOKEN.
+Proof.
+  intros Hwf Hj Hr HX0 H0 H1 Hname HX1 HX2 HX3 HX4 Hd Hwf2 Ht2 Hd2.
+  destruct (class_exc_untouched items junk (ws0 ++ typ ++ ws1 ++ X :: r) X r v e Hwf Hj Hr HX0) as (d & s & E & Hu & V & M & te & Er & Hc).
+  - destruct (name_head typ Hname) as (t0 & t' & -> & _ & _). repeat (rewrite ?app_length; cbn [length]). lia.
+  - intros s1 Hs1. exact (no_opener_reads s1 ws0 typ ws1 X r H0 H1 Hname HX1 HX2 HX3 HX4 Hs1).
+  - exact Hd.
+  - destruct (suffix_confinement_lemma _ d s items2 tail2 v2 e2 E Hu) as (d' & s' & E' & V' & Er').
+    + rewrite M. exact Hwf2.
+    + exact Ht2.
+    + rewrite M, V. exact Hd2.
+    + exists d', s', te. split; [exact E'|]. split; [exact V'|]. split; [|exact Hc]. rewrite Er', Er, <- app_assoc. reflexivity.
 Qed.
